@@ -531,6 +531,40 @@ def input_domain_relations(res, st, lawname, mat, tol, sec, stress_fn, load_fn, 
                                       scalar_result=float(v[j]), array_result=float(refl[i]), **base)
 
 
+LADDERS = [(24, None, False), (24, None, True), (80, 1e-6, False), (48, 1e-6, True)]       # (elements, tolerance or None = the sample's clamped to 1e-6..1e-5, alternating signs)
+
+
+def transition_ladder_relations(res, st, lawname, mat, tol, sec, stress_fn, records):
+    """Array calls on geometric ladders through the elastic-plastic transition: amplitudes K' * 10^q, q = -2 .. 0.3 (plastic strain
+    share 1e-7 .. 100), 24 / 48 / 80 elements, one-signed and alternating signs.  In the (nearly) elastic part scipy's vectorised secant flags
+    elements of the Seeger-Beste call as not converged, so that the per-element retry (_stress_fix_not_converged_values /
+    _stress_secondary_fix_not_converged_values) runs for elements with noticeable plasticity: every element must be a root of its own
+    branch's equation.  (Added after seeded change C06-1: the 5-element ladders reach the retry of a plastic element only by luck.)
+    Tolerances: 1e-6 (where the retry of plastic elements is most frequent) or the sample's clamped to 1e-6..1e-5; below 1e-6 the Seeger-Beste
+    array call raises RuntimeError on 40-70 % of these ladders on the unchanged tree (the retry of a nearly elastic element does not
+    converge) -- those tolerances are exercised on the 5-element ladders."""
+    E, K, n, Kp = mat
+    br = '_secondary_branch' if sec else ''
+    for N, t, alt in LADDERS:
+        t = min(max(tol, 1e-6), 1e-5) if t is None else t
+        amp = np.array([K * 10.0 ** (-2.0 + 2.3 * j / (N - 1)) for j in range(N)])
+        sg = np.array([-1.0 if (alt and j % 2) else 1.0 for j in range(N)])
+        Lvec = amp * (2.0 if sec else 1.0) * sg
+        v, ex = call(stress_fn, Lvec, t, st, '%s.stress%s[ladder]' % (lawname, br))
+        st.inc('ladder_calls')
+        if v is None:
+            if ex != 'RuntimeError':
+                res.violation(W_CONT, law=lawname, method='stress' + br, container='ndarray[%d]' % N, exception=ex, E=E, K=K, n=n, K_p=Kp, tol=t, loads=Lvec.tolist())
+            continue
+        v = np.asarray(v, float)
+        cname = 'ndarray[%d]%s' % (N, ' alternating signs' if alt else '')
+        for i in range(N):
+            ok = check_value(res, st, lawname, mat, Kp, t, Lvec[i], v[i], sec, dict(container=cname, index=i, ladder=[N, alt], loads=Lvec.tolist()))
+            st.inc('ladder_values_checked')
+            if i % 4 == 0:
+                records.append((lawname, sec, mat, t, float(Lvec[i]), float(v[i]), bool(ok), st.get('last_how')))
+
+
 def relations_one(res, st, smp, records):
     """All relations of the property for one (material, K_p, tol, load ladder) on the implementation."""
     E, K, n, Kp, tol = smp['E'], smp['K'], smp['n'], smp['K_p'], smp['tol']
@@ -660,6 +694,8 @@ def relations_one(res, st, smp, records):
             if again is not None and not same_bits(again, arr):
                 res.violation(W_REPEAT, law=lawname, method='stress' + br, E=E, K=K, n=n, K_p=Kp, tol=tol, loads=Lvec.tolist(), first=arr.tolist(),
                               second=np.asarray(again, float).tolist())
+            # ---- dense ladder through the elastic-plastic transition (retry path of Seeger-Beste next to plastic elements)
+            transition_ladder_relations(res, st, lawname, mat, tol, sec, stress_fn, records)
             # ---- zero loads, integer-valued loads, lists, permuted Series index
             input_domain_relations(res, st, lawname, mat, tol, sec, stress_fn, load_fn, Lvec, arr, good, R)
         if lawname == 'ExtendedNeuber':
